@@ -521,6 +521,7 @@ func propC04(cx *sim.Ctx) {
 			// fault configuration: the k-th Write call of the io.Writer fails
 			swf := sim.NewSimWriter(c.FailCall)
 			swf.Sticky = sim.Bool(cx.T, "sticky")
+			swf.Short = sim.Bool(cx.T, "short")
 			wrf := &oj.Writer{Options: optW}
 			_, p = guardStr(func() string { err = wrf.Write(swf, data); return "" })
 			cx.Exec()
@@ -644,6 +645,7 @@ func propC04(cx *sim.Ctx) {
 		}
 		if c.FailCall >= 0 {
 			swf := sim.NewSimWriter(c.FailCall)
+			swf.Short = sim.Bool(cx.T, "short")
 			_, p = guardStr(func() string { err = pretty.WriteJSON(swf, data, parg, c.Align, &optPW); return "" })
 			cx.Exec()
 			if swf.FaultHit {
